@@ -23,7 +23,10 @@
  *           `s` as an argument = memory.size)
  *   grow_sched content <initialPages> <maxPages> <reallocFails> <delta>...   NON-shared memory filled with a pattern;
  *        realloc returns a fresh block with a dirty (0xAA) tail; after every grow:
- *        -> r=<ret>,p=<pages>,o=<old bytes intact 0|1>,z=<number of non-zero bytes in the new pages>,f=<first such offset|->
+ *        reallocFails: 0 never, 1 always, k>=2: the (k-1)-th realloc call returns NULL (old block stays valid, as C says)
+ *        -> r=<ret>,p=<pages>,d=<data pointer unchanged after a FAILED grow 0|1, - otherwise>,o=<old bytes intact 0|1>,
+ *           z=<number of non-zero bytes in the new pages>,f=<first such offset|->     (contents read through i32_load8_u;
+ *           the line is flushed piecewise: a crash while reading back is visible to the caller)
  *   grow_sched alloc <initialPages> <maxPages> <shared>                   -> size <s> pages <p> max <m>
  *   grow_sched touch <initialPages> <maxPages> <shared> <byteOffset>      store one byte (run under ASan)
  *   grow_sched stress <growers> <iterations> <sizeReaders> [<oldPageAccessors> [<newPageAccessors>]]   free-running (TSan):
@@ -48,11 +51,13 @@ static int sched_mutex_unlock(pthread_mutex_t* m);
 /* `content` mode: realloc as the allocator may legally behave — a NEW block whose bytes beyond the old contents are
  * dirty (0xAA) — so that missing zeroing of grown pages is visible.  Redirected by macro like the mutex calls. */
 static size_t g_blockSize;
-static int g_failRealloc;
+static int g_failRealloc;        /* 0: never, 1: always, k >= 2: exactly the (k-1)-th call fails (out of host memory) */
+static int g_reallocCalls;
 static void* dirty_realloc(void* p, size_t n) {
     unsigned char* q;
     size_t keep;
-    if (g_failRealloc) return NULL;
+    g_reallocCalls++;
+    if (g_failRealloc == 1 || (g_failRealloc >= 2 && g_reallocCalls == g_failRealloc - 1)) return NULL;   /* old block stays valid */
     q = (unsigned char*)malloc(n ? n : 1);
     if (!q) return NULL;
     memset(q, 0xAA, n);
@@ -202,19 +207,26 @@ static int cmd_content(int argc, char** argv) {
     wasmMemory* mem = wasmMemoryAllocate(init, max, false);
     g_failRealloc = atoi(argv[4]);
     size = (size_t)init * 65536u;
-    for (k = 0; k < size; k++) mem->data[k] = pat(k);
+    for (k = 0; k < size; k++) i32_store8(mem, (U64)k, pat(k));
     for (i = 5; i < argc; i++) {
         U32 delta = (U32)strtoul(argv[i], NULL, 0), ret;
         size_t nz = 0, first = (size_t)-1, newSize;
         int oldOk = 1;
+        U8* dataBefore = mem->data;
         g_blockSize = size;
         ret = wasmMemoryGrow(mem, delta);
         newSize = (size_t)mem->pages * 65536u;
-        for (k = 0; k < size && k < newSize; k++) if (mem->data[k] != pat(k)) { oldOk = 0; break; }
-        for (k = size; k < newSize; k++) if (mem->data[k] != 0) { if (!nz) first = k; nz++; }
-        printf("%sr=%u,p=%u,o=%d,z=%lu,f=", i > 5 ? " " : "", ret, mem->pages, oldOk, (unsigned long)nz);
+        /* printed BEFORE the contents are read back through the real accessors: if the read crashes (e.g. `data` was
+         * clobbered by a failed grow) the caller still sees which grow it was — a crash is an answer */
+        printf("%sr=%u,p=%u,d=", i > 5 ? " " : "", ret, mem->pages);
+        if (ret == (U32)-1) printf("%d", mem->data == dataBefore); else printf("-");
+        fflush(stdout);
+        for (k = 0; k < size && k < newSize; k++) if (i32_load8_u(mem, (U64)k) != pat(k)) { oldOk = 0; break; }
+        for (k = size; k < newSize; k++) if (i32_load8_u(mem, (U64)k) != 0) { if (!nz) first = k; nz++; }
+        printf(",o=%d,z=%lu,f=", oldOk, (unsigned long)nz);
         if (nz) printf("%lu", (unsigned long)first); else printf("-");
-        for (k = size; k < newSize; k++) mem->data[k] = pat(k);      /* the program now uses the new pages */
+        fflush(stdout);
+        for (k = size; k < newSize; k++) i32_store8(mem, (U64)k, pat(k));      /* the program now uses the new pages */
         size = newSize;
     }
     printf("\n");
